@@ -604,6 +604,36 @@ def m_map_insert(M, a, c, fr):
     return opt_some(old) if was else opt_none()
 
 
+# ----------------------------------------------------------------------------- TypeId (opaque 128-bit identity), comparison traits
+def ordering(lt, eq):
+    return EnumV('Ordering', z3.If(lt, bv(-1 & 0xFF, 8), z3.If(eq, bv(0, 8), bv(1, 8))), {0: [], 1: [], 2: []})
+
+
+def tid_of(name):
+    import hashlib
+    return z3.BitVec('TypeId::of<%s>' % name, 128)
+
+
+def m_typeid_of(M, a, c, fr):
+    m = re.fullmatch(r'TypeId::of::<(.*)>', c)
+    M.aux.setdefault('typeid_of_log', []).append(m.group(1))
+    return tid_of(m.group(1))
+
+
+def m_typeid_eq(M, a, c, fr): return deref(M, a[0]) == deref(M, a[1])
+def m_typeid_cmp(M, a, c, fr):
+    x, y = deref(M, a[0]), deref(M, a[1]); return ordering(z3.ULT(x, y), x == y)
+def m_typeid_hash(M, a, c, fr):
+    M.aux.setdefault('hash_log', []).append(deref(M, a[0])); return []
+
+
+def m_ref_eq(M, a, c, fr):
+    m = re.fullmatch(r'<&(?:mut )?(.+) as PartialEq(?:<&(?:mut )?(.+)>)?>::(eq|ne)', c)
+    inner = m.group(1)
+    x, y = M.load(a[0]), M.load(a[1])
+    return M.call('<%s as PartialEq>::%s' % (inner, m.group(3)), [x, y], fr)
+
+
 def m_into_via_from(M, a, c, fr):
     m = re.fullmatch(r'<(.+) as Into<(.+)>>::into', c)
     src, dst = m.group(1), m.group(2)
@@ -673,6 +703,10 @@ MODELS = [
     (r'core::num::<impl u8>::is_ascii_alphabetic', m_u8_alpha), (r'core::num::<impl u8>::is_ascii_alphanumeric', m_u8_alnum),
     (r'<&str as Into<String>>::into', m_str_to_owned), (r'<String as From<&str>>::from', m_str_to_owned),
     (r'(alloc|std)::string::<impl ToString for str>::to_string|<str as ToString>::to_string|<str as ToOwned>::to_owned', m_str_to_owned),
+    # TypeId
+    (r'TypeId::of::<.*>', m_typeid_of), (r'<TypeId as PartialEq>::eq', m_typeid_eq), (r'<TypeId as Ord>::cmp', m_typeid_cmp),
+    (r'<(TypeId|usize|u8|u16|u32|u64|u128|isize|i32|i64|bool|str|String) as Hash>::hash::<.*>', m_typeid_hash), (r'<TypeId as Clone>::clone', lambda M, a, c, fr: deref(M, a[0])),
+    (r'<&(mut )?(?!str)[A-Z][\w:]*(<.*>)? as PartialEq(<.*>)?>::(eq|ne)', m_ref_eq),
     # misc
     (r'<.+ as Into<.+>>::into', m_into_via_from),
     (r'<.* as Clone>::clone', m_clone),
